@@ -2,7 +2,7 @@
 import ast
 
 from vstat.loader import AnalysisError
-from vstat.terms import builder, show, SELF, NONE, G, alts, walk, mentions, phi, subst
+from vstat.terms import builder, CMP, ordered, show, SELF, NONE, G, alts, walk, mentions, phi, subst
 from vstat.guards import path_conditions
 from vstat.cfg import cfg_of, EXIT
 from vstat.dataflow import rd_of
@@ -25,16 +25,28 @@ EXPL = ("C04.pred: AND combines x > v0 and y > v1 with np.logical_and, OR with n
 ASSUME = ["that the step-halving search reaches the tolerance is a runtime fact", "allowed_error >= 1 (loop never entered) is outside the property's range"]
 
 
+def _counter_at_limit(t):
+    """(counter, limit) when the test says 'counter == limit' or 'counter >= limit' (either way round) with a local counter."""
+    if t[0] == "cmp" and t[1] == "==":
+        for a, b_ in ((t[2], t[3]), (t[3], t[2])):
+            if a[0] == "local" and b_[0] in ("local", "const"):
+                return a, b_
+    o = ordered(t)
+    if o is not None and not o[2] and o[1][0] == "local" and o[0][0] in ("local", "const"):
+        return o[1], o[0]
+    return None
+
+
 def run(prog, rep):
     rep.explanation = EXPL
     rep.assumptions = ASSUME
     infos = {}
     for cls, comb in (("AndContour", "numpy.logical_and"), ("OrContour", "numpy.logical_or")):
-        default_n(prog, rep, f"{CT}.{cls}", "C04.n")
+        rep.part(default_n, prog, rep, f"{CT}.{cls}", "C04.n")
         infos[cls] = one(prog, rep, cls, comb)
-    sibling(prog, rep, infos)
-    ctor_stores(prog, rep, "C04.ctor", f"{CT}.AndContour", ["model", "alpha", "deg_step", "sample", "allowed_error"])
-    ctor_stores(prog, rep, "C04.ctor", f"{CT}.OrContour", ["model", "alpha", "deg_step", "sample", "allowed_error", "lowest_theta", "highest_theta"])
+    rep.part(sibling, prog, rep, infos)
+    rep.part(ctor_stores, prog, rep, "C04.ctor", f"{CT}.AndContour", ["model", "alpha", "deg_step", "sample", "allowed_error"])
+    rep.part(ctor_stores, prog, rep, "C04.ctor", f"{CT}.OrContour", ["model", "alpha", "deg_step", "sample", "allowed_error", "lowest_theta", "highest_theta"])
     rep.expect_min("C04.ctor", 4)
     rep.expect_min("C04.n", 4)
     rep.expect_min("C04.pred", 5)
@@ -43,7 +55,8 @@ def run(prog, rep):
     rep.expect_min("C04.ray", 4)
     rep.expect_min("C04.close", 2)
     rep.expect_min("C04.filter", 2)
-
+    from .purity import row as _stateless_row
+    rep.part(_stateless_row, prog, rep, "C04", 3)
 
 def top_level_index(body, st):
     for i, s in enumerate(body):
@@ -210,8 +223,9 @@ def one(prog, rep, cls, comb):
 
     tt = cont
     okt = False
-    if tt[0] == "cmp" and tt[1] == ">" and is_allowed(tt[3]) and tt[2][0] == "bin" and tt[2][1] == "/" and is_alpha(tt[2][3]):
-        num = tt[2][2]
+    o_ = ordered(tt)
+    if o_ is not None and o_[2] and is_allowed(o_[0]) and o_[1][0] == "bin" and o_[1][1] == "/" and is_alpha(o_[1][3]):
+        num = o_[1][2]
         if num[0] == "call" and num[1] in (G("numpy.abs"), G("abs")) and len(num[2]) == 1:
             dlt = num[2][0]
             okt = dlt[0] == "bin" and dlt[1] == "-" and ((dlt[2] == Lc(pename) and is_alpha(dlt[3])) or (dlt[3] == Lc(pename) and is_alpha(dlt[2])))
@@ -231,7 +245,7 @@ def one(prog, rep, cls, comb):
         lim = False
         if ifs:
             t_if = bs.term(ifs[-1].test, ifs[-1])
-            lim = t_if[0] == "cmp" and t_if[1] in ("==", ">=") and t_if[2][0] == "local" and (t_if[3][0] in ("local", "const"))
+            lim = _counter_at_limit(t_if) is not None
         if not dom:
             okb, why = False, "a break leaves the search loop without the 'could not achieve the required precision' UserWarning: an inaccurate point is returned silently"
         elif not lim:
@@ -253,8 +267,9 @@ def one(prog, rep, cls, comb):
             for p_, w_ in cfg.enclosing(st_w):
                 if isinstance(p_, ast.If) and w_ == "body" and any(x is p_ for x in ast.walk(W)):
                     t_if = bs.term(p_.test, p_)
-                    if t_if[0] == "cmp" and t_if[1] in ("==", ">=") and t_if[2] == lv and last is not None:
-                        lim_t = t_if[3]
+                    cl = _counter_at_limit(t_if)
+                    if cl is not None and cl[0] == lv and last is not None:
+                        lim_t = cl[1]
                         lim_full = bf.name(lim_t[1], W, {}) if lim_t[0] == "local" else lim_t
                         last_full = subst(last, {s_: bf.name(s_[1], W, {}) for s_ in walk(last) if s_[0] == "local"})
                         if algebra.same(lim_full, last_full):
@@ -441,8 +456,9 @@ def one(prog, rep, cls, comb):
             lits = tf[1] if tf[0] == "and" else ()
 
             def lim_ok(l, comp, col):
-                if l[0] == "cmp" and l[1] == "<" and l[2] == V(comp):
-                    lim = l[3]
+                o_ = ordered(l)
+                if o_ is not None and o_[2] and o_[0] == V(comp):
+                    lim = o_[1]
                     lim = bf.name(lim[1], ifx[0], {}) if lim[0] == "local" else lim
                     for mx in (("call", G("max"), (col,), ()), ("call", G("numpy.max"), (col,), ()), ("call", ("attr", col, "max"), (), ())):
                         if algebra.same(lim, ("bin", "*", ("const", 1.1), mx)):
